@@ -35,7 +35,11 @@ def read_infos(path):
     cur = {}
 
     def flush():
-        infos.append(dict(cur))
+        if cur:
+            for need in ('z', 'sym', 'a', 'mass', 'ab'):
+                if need not in cur:
+                    raise ValueError(f'block without {need}: {cur}')
+            infos.append(dict(cur))
         cur.clear()
 
     with open(path) as fh:
@@ -44,6 +48,8 @@ def read_infos(path):
             if line == '':
                 flush()
                 continue
+            if '=' not in line:
+                raise ValueError(f'line without "=": {line!r}')
             k, v = line.split('=')[0].rstrip(), line.split('=')[1].lstrip()
             if k == 'Atomic Number':
                 cur['z'] = int(v)
@@ -95,13 +101,64 @@ def read_particles(path):
     return out
 
 
-def render(repo):
+def runtime_tables():
+    """fallback: the tables the library under test builds at import time, by value (floats -> their shortest decimal text)"""
+    import importlib
+    from decimal import Decimal
+    c = importlib.import_module('peptacular.constants')
+
+    def num(x, digits, what):
+        f = Fraction(Decimal(repr(float(x)))) * 10 ** digits
+        return int(round(f))
+
+    M = c.ATOMIC_SYMBOL_TO_ISOTOPE_MASSES_AND_ABUNDANCES
+    N = c.ATOMIC_SYMBOL_TO_ISOTOPE_NEUTRON_OFFSETS_AND_ABUNDANCES
+    mono = c.ISOTOPIC_ATOMIC_MASSES
+    table = {}
+    for k, lst in M.items():
+        offs = list(N.get(k, []))
+        isos = []
+        for i, (m, ab) in enumerate(lst):
+            off = int(offs[i][0]) if i < len(offs) else 0
+            isos.append((1000 + off, num(m, MASS_DEC, 'mass'), num(ab, AB_DEC, 'abundance')))
+        table[str(k)] = (num(mono.get(k, lst[0][0] if lst else 0.0), MASS_DEC, 'mono'), isos)
+    parts = {'PROTON_MASS': num(c.PROTON_MASS, PART_DEC, 'p'), 'ELECTRON_MASS': num(c.ELECTRON_MASS, PART_DEC, 'e'),
+             'NEUTRON_MASS': num(c.NEUTRON_MASS, PART_DEC, 'n')}
+    return table, parts
+
+
+LAST_MODE = {'mode': 'source', 'why': ''}
+
+
+def load_tables(repo):
+    """(table, parts, mode, why): mode 'source' = exact decimal texts read from data/chem.txt + constants.py by this translator's
+    own reading of element_setup; 'by_value' = the source could not be read in the expected shape, the runtime tables of the
+    library under test are emitted instead (the generated module is then not an independent reading of the data)"""
     base = os.path.join(repo, 'src', 'peptacular')
-    table = build_table(read_infos(os.path.join(base, 'data', 'chem.txt')))
-    parts = read_particles(os.path.join(base, 'constants.py'))
+    try:
+        table = build_table(read_infos(os.path.join(base, 'data', 'chem.txt')))
+        parts = read_particles(os.path.join(base, 'constants.py'))
+        if not table:
+            raise ValueError('no element block found in chem.txt')
+        for k, (mono, isos) in table.items():
+            if not isinstance(mono, int) or any(not isinstance(x, int) for t in isos for x in t):
+                raise ValueError(f'incomplete block for {k}')
+        return table, parts, 'source', ''
+    except Exception as e:  # noqa  - any shape problem: never crash, fall back
+        why = f'{type(e).__name__}: {e}'
+        table, parts = runtime_tables()
+        return table, parts, 'by_value', why
+
+
+def render(repo):
+    table, parts, mode, why = load_tables(repo)
+    LAST_MODE.update(mode=mode, why=why)
     L = []
     L.append('/-! GENERATED by harness/translate_c14.py from src/peptacular/data/chem.txt and constants.py - do not edit.')
-    L.append('Exact decimal texts of the source as numerators over fixed powers of ten. -/')
+    if mode == 'source':
+        L.append('Exact decimal texts of the source as numerators over fixed powers of ten. -/')
+    else:
+        L.append('BY VALUE: the source could not be read in the expected shape; runtime tables of the library under test. -/')
     L.append('namespace PeptVerif.Gen.C14')
     L.append('')
     L.append(f'def massScale : Nat := {10 ** MASS_DEC}')
@@ -115,14 +172,15 @@ def render(repo):
     L.append('abbrev Entry := List Nat × Nat × List (Nat × Nat × Nat)')
     L.append('')
     items = list(table.items())
-    chunks = [items[i:i + 60] for i in range(0, len(items), 60)]
+    chunks = [items[i:i + 60] for i in range(0, len(items), 60)] or [[]]
     for ci, ch in enumerate(chunks):
         L.append(f'def chunk{ci} : List Entry := [')
         rows = []
         for key, (mono, isos) in ch:
             cps = ', '.join(str(ord(c)) for c in key)
             iso = ', '.join(f'({a}, {m}, {ab})' for a, m, ab in isos)
-            rows.append(f'  /- {key} -/ ([{cps}], {mono}, [{iso}])')
+            safe = key.replace('-/', '- /').replace('/-', '/ -')
+            rows.append(f'  /- {safe} -/ ([{cps}], {mono}, [{iso}])')
         L.append(',\n'.join(rows))
         L.append(']')
         L.append('')
